@@ -121,7 +121,12 @@ func rawJSON(f forest, i int, pat func(fi int) int, fs []vfield) map[string]any 
 		case reflect.Bool:
 			m[fd.json] = true
 		case reflect.Slice:
-			m[fd.json] = []string{fmt.Sprintf("n%d.%s.0", i, fd.json), fmt.Sprintf("n%d.%s.1", i, fd.json)}
+			// list lengths differ per node (3,1,5,2,...): decoded slices then have spare capacity in some nodes and none in others
+			var l []string
+			for k := 0; k < []int{3, 1, 5, 2, 6}[i%5]; k++ {
+				l = append(l, fmt.Sprintf("n%d.%s.%d", i, fd.json, k))
+			}
+			m[fd.json] = l
 		}
 	}
 	return m
@@ -288,24 +293,62 @@ func runCase(dir string, c vcase, fs []vfield, onlyStatus string) (string, strin
 		names = append(names, k)
 	}
 	sort.Strings(names)
-	// two loaders: cold cache per node, and one warm loader reused over all nodes in reverse order
+	// pass 0: cold cache per node. pass 1: one warm loader, every node loaded (reverse order) BEFORE anything is
+	// compared, so a later Load that scribbles over an earlier result is seen. pass 2: LoadAll when every node is fine.
 	warm := NewLoader(dir)
-	for pass := 0; pass < 2; pass++ {
+	type lres struct {
+		c   *Config
+		err error
+	}
+	for pass := 0; pass < 3; pass++ {
 		order := names
-		if pass == 1 {
+		got := map[string]lres{}
+		switch pass {
+		case 1:
 			order = append([]string{}, names...)
 			sort.Sort(sort.Reverse(sort.StringSlice(order)))
+			for _, name := range order {
+				want := refResolve(raws, name, map[string]bool{})
+				if onlyStatus != "" && ((onlyStatus == "ok") != (want.status == "ok")) {
+					continue
+				}
+				c, err := warm.Load(name)
+				got[name] = lres{c, err}
+			}
+		case 2:
+			allOK := true
+			for _, name := range names {
+				if refResolve(raws, name, map[string]bool{}).status != "ok" {
+					allOK = false
+				}
+			}
+			if !allOK || onlyStatus == "bad" {
+				continue
+			}
+			all, err := NewLoader(dir).LoadAll()
+			if err != nil {
+				return "loadall", fmt.Sprintf("LoadAll failed: %v", err)
+			}
+			for _, name := range names {
+				got[name] = lres{all[name], nil}
+				if all[name] == nil {
+					return "loadall:" + name, "LoadAll result lacks " + name
+				}
+			}
 		}
 		for _, name := range order {
 			want := refResolve(raws, name, map[string]bool{})
 			if onlyStatus != "" && ((onlyStatus == "ok") != (want.status == "ok")) {
 				continue
 			}
-			l := warm
+			var g lres
 			if pass == 0 {
-				l = NewLoader(dir)
+				c, err := NewLoader(dir).Load(name)
+				g = lres{c, err}
+			} else {
+				g = got[name]
 			}
-			got, err := l.Load(name)
+			got, err := g.c, g.err
 			if want.status != "ok" {
 				if err == nil {
 					return "noerror:" + name, fmt.Sprintf("Load(%s) returned a configuration but the inheritance graph has a %s parent", name, want.status)
@@ -543,32 +586,51 @@ func TestVerifTargets(t *testing.T) {
 		names = append(names, k)
 	}
 	sort.Strings(names)
-	warmF, warmR := NewLoader(tdir), NewLoader(tdir)
 	inheritsN := 0
-	for pass := 0; pass < 3; pass++ {
+	for pass := 0; pass < 4; pass++ {
 		order := append([]string{}, names...)
 		if pass == 2 {
 			sort.Sort(sort.Reverse(sort.StringSlice(order)))
 		}
+		type lres struct {
+			c   *Config
+			err error
+		}
+		got := map[string]lres{}
+		switch pass {
+		case 1, 2: // one warm loader; everything is loaded before anything is compared
+			l := NewLoader(tdir)
+			for _, name := range order {
+				c, err := l.Load(name)
+				got[name] = lres{c, err}
+			}
+		case 3:
+			all, err := NewResolver(tdir).ResolveAll()
+			if err != nil {
+				s.viol("shipped-resolveall", fmt.Sprintf("ResolveAll: %v", err), nil)
+				continue
+			}
+			for _, name := range order {
+				got[name] = lres{all[name], nil}
+			}
+		}
 		for _, name := range order {
 			s.Evaluations++
 			want := refResolve(raws, name, map[string]bool{})
-			l := NewLoader(tdir)
-			if pass == 1 {
-				l = warmF
-			} else if pass == 2 {
-				l = warmR
+			g := got[name]
+			if pass == 0 {
+				c, err := NewLoader(tdir).Load(name)
+				g = lres{c, err}
 			}
-			got, err := l.Load(name)
 			if want.status != "ok" {
 				s.viol("shipped-bad:"+name, fmt.Sprintf("shipped target %s has a %s parent", name, want.status), name)
 				continue
 			}
-			if err != nil {
-				s.viol("shipped-err:"+name, fmt.Sprintf("Load(%s): %v", name, err), name)
+			if g.err != nil || g.c == nil {
+				s.viol("shipped-err:"+name, fmt.Sprintf("Load(%s): %v", name, g.err), name)
 				continue
 			}
-			if gv := configVals(got, fs); !reflect.DeepEqual(gv, want.vals) || got.Name != name {
+			if gv := configVals(g.c, fs); !reflect.DeepEqual(gv, want.vals) || g.c.Name != name {
 				s.viol(fmt.Sprintf("shipped-merge:%s:pass%d", name, pass), fmt.Sprintf("shipped target %s (pass %d): got %v want %v", name, pass, gv, want.vals), name)
 			}
 			if pass == 0 {
